@@ -478,6 +478,51 @@ fn gen_error_enums(repo: &Path, out: &Path) {
     write_if_changed(&out.join("ErrorEnums.lean"), &s);
 }
 
+fn gen_tlv(repo: &Path, out: &Path) {
+    let f_d = parse_file(&repo.join("discriminator/src/discriminator.rs"));
+    let f_l = parse_file(&repo.join("type-length-value/src/length.rs"));
+    let f_e = parse_file(&repo.join("type-length-value/src/error.rs"));
+    let mut env = Consts::new();
+    collect_consts(&f_d.items, "", &mut env);
+    let dl = const_val(&env, "ArrayDiscriminator::LENGTH", "discriminator.rs");
+    // pub struct Length(PodUxx);
+    let mut lw = None;
+    for it in &f_l.items {
+        if let syn::Item::Struct(st) = it {
+            if st.ident == "Length" {
+                if let syn::Fields::Unnamed(u) = &st.fields {
+                    if let Some(syn::Type::Path(tp)) = u.unnamed.first().map(|f| &f.ty) {
+                        lw = match tp.path.segments.last().unwrap().ident.to_string().as_str() {
+                            "PodU16" => Some(2), "PodU32" => Some(4), "PodU64" => Some(8), "PodU128" => Some(16), _ => None,
+                        };
+                    }
+                }
+            }
+        }
+    }
+    let lw = lw.unwrap_or_else(|| fail("struct Length(PodUxx) not found in length.rs"));
+    // TlvError discriminants
+    let en = f_e.items.iter().find_map(|it| match it { syn::Item::Enum(e) if e.ident == "TlvError" => Some(e), _ => None })
+        .unwrap_or_else(|| fail("enum TlvError not found"));
+    let mut next: i128 = 0;
+    let mut codes = std::collections::BTreeMap::new();
+    for v in &en.variants {
+        if let Some((_, e)) = &v.discriminant { next = eval(e, &Consts::new()).unwrap_or_else(|| fail("TlvError discriminant")); }
+        codes.insert(v.ident.to_string(), next);
+        next += 1;
+    }
+    let get = |n: &str| *codes.get(n).unwrap_or_else(|| fail(&format!("TlvError::{n} not found")));
+    let mut s = String::new();
+    writeln!(s, "-- GENERATED by /verif/harness `extract` from /repo/discriminator/src/discriminator.rs and /repo/type-length-value/src/length.rs — do not edit").unwrap();
+    writeln!(s, "namespace Gen.Tlv").unwrap();
+    writeln!(s, "def DISC_LEN : Nat := {dl}").unwrap();
+    writeln!(s, "def LEN_WIDTH : Nat := {lw}").unwrap();
+    writeln!(s, "def TYPE_NOT_FOUND : Nat := {}", get("TypeNotFound")).unwrap();
+    writeln!(s, "def TYPE_ALREADY_EXISTS : Nat := {}", get("TypeAlreadyExists")).unwrap();
+    writeln!(s, "end Gen.Tlv").unwrap();
+    write_if_changed(&out.join("TlvConsts.lean"), &s);
+}
+
 fn main() {
     let args: Vec<String> = std::env::args().collect();
     if args.len() != 3 {
@@ -489,6 +534,7 @@ fn main() {
     std::fs::create_dir_all(&out).unwrap();
     gen_token(&repo, &out);
     gen_disc(&repo, &out);
+    gen_tlv(&repo, &out);
     gen_err_consts(&repo, &out);
     gen_error_enums(&repo, &out);
 }
